@@ -120,3 +120,33 @@ package base
 //@   requires[fields-validated-at-load-time] forall i int :: 0 <= i && i < len(names) ==> hasf(*s, key(names[i]))
 //@   modifies nothing
 //@   ensures  len(result) == len(names)
+
+// ==== metric key sets (C19: labelled counters are attributed to the label values of the records that caused them; C06) =============
+// Extract returns the record's own values of the key fields (transient views)
+//@ func (ex *FieldSetExtractor) Extract(record *LogRecord) []string
+//@   property C19 C06
+//@   requires ex != nil && record != nil && len(ex.fieldSetBuffer) == len(ex.locators) && ref(ex.fieldSetBuffer) != ref(record.Fields) && ref(ex.fieldSetBuffer) != 0
+//@   requires forall i int :: 0 <= i && i < len(ex.locators) ==> 0 <= ex.locators[i] && ex.locators[i] < len(record.Fields)
+//@   modifies ex.fieldSetBuffer[:]
+//@   ensures[own-values-of-the-key-fields] result === ex.fieldSetBuffer && forall i int :: 0 <= i && i < len(ex.locators) ==> result[i] === record.Fields[ex.locators[i]]
+//@   loop 1: invariant -1 <= rangeindex && rangeindex < len(ex.locators) && forall i int :: 0 <= i && i <= rangeindex ==> transientFieldSet[i] === record.Fields[ex.locators[i]]
+
+// lastmkey / lastmkeys: ghost - the merged key and the key values SelectMetricKeySet used for its lookup
+//@ ghost var lastmkey []byte
+//@ ghost var lastmks string
+//@ ghost var lastmkeys []string
+//@ func (pcounter *LogProcessCounterSet) SelectMetricKeySet(record *LogRecord) *LogInputCounterSet
+//@   property C19 C06
+//@   requires pcounter != nil && record != nil && pcounter.keySetPairs != nil && pcounter.customCounterVecMap != nil && pcounter.factory != nil && len(pcounter.mergeKeyBuffer) == 0
+//@   requires len(pcounter.metricKeyExtractor.fieldSetBuffer) == len(pcounter.metricKeyExtractor.locators) && ref(pcounter.metricKeyExtractor.fieldSetBuffer) != ref(record.Fields) && ref(pcounter.metricKeyExtractor.fieldSetBuffer) != 0
+//@   requires forall i int :: 0 <= i && i < len(pcounter.metricKeyExtractor.locators) ==> 0 <= pcounter.metricKeyExtractor.locators[i] && pcounter.metricKeyExtractor.locators[i] < len(record.Fields)
+//@   requires[vector-indexes-are-dense] forall k int :: rawhas(pcounter.customCounterVecMap, k) ==> 0 <= rawget(pcounter.customCounterVecMap, k).index && rawget(pcounter.customCounterVecMap, k).index < len(pcounter.customCounterVecMap)
+//@   modifies everything
+//@   ghostset lastmkey := tempMergedKey
+//@   ghostset lastmks := string(tempMergedKey)
+//@   ghostset lastmkeys := tempKeys
+//@   ensures[keyed-by-the-records-own-label-values] len(lastmkeys) == len(old(pcounter.metricKeyExtractor.locators)) && forall i int :: 0 <= i && i < len(lastmkeys) ==> lastmkeys[i] === old(record.Fields[pcounter.metricKeyExtractor.locators[i]])
+//@   ensures[looked-up-under-their-merged-key] util.mkpos[0] == 0 && util.mkpos[len(lastmkeys)] == len(lastmkey) && util.mergedof(lastmkey, util.mkpos, lastmkeys, len(lastmkeys))
+//@   ensures[selects-the-entry-of-that-key] has(pcounter.keySetPairs, lastmks) && pcounter.keySetPairs[lastmks].inputCounter == result && pcounter.currentCustomCounters === pcounter.keySetPairs[lastmks].customCounters
+//@   ensures[existing-entry-is-reused] old(has(pcounter.keySetPairs, now(lastmks))) ==> result == old(pcounter.keySetPairs[now(lastmks)].inputCounter)
+//@   ensures[key-buffer-reset] len(pcounter.mergeKeyBuffer) == 0
